@@ -189,5 +189,5 @@ def run(chk, replay=None):
         "(=> |K| <= ncols - rank) and any larger independent kernel family the harness's own elimination finds (none found => "
         "equality rests on that elimination not missing one)" % RANK_MAX,
     ]
-    chk.notes.append("a call that does not return before the deadline (1800 s; normal < 5 s) is reported as drift, not as a violation: "
+    chk.notes.append("a call that does not return before the deadline (300 s; normal < 5 s; after two such calls no further Lanczos call is made) is reported as drift, not as a violation: "
                      "the property speaks about returned vectors")
